@@ -322,6 +322,7 @@ def run(tier, replay=None):
     run_chain_add(chk, F)
     run_pairing_kinds(chk, F)
     run_dimension_flow(chk, F)
+    run_dimension_overwrite(chk, F)
     run_pair_coefficients(chk, F)
     run_bar_order(chk, F)
     run_transposed_u_undo(chk, F)
@@ -635,3 +636,56 @@ def run_overlay_counter(chk, F):
            'expected %d: the next inserted position is mapped to an index the matrix does not use' %
            (bad[1], [t for t in bad[0] if t != 'DEC'], bad[0].count('DEC'), bad[2]),
            key='E2n|Position_to_index_overlay::remove_last|counter')
+
+
+# ------------------------------------------------------------------ E10 a given dimension is never overwritten
+
+def run_dimension_overwrite(chk, F, only_unit=None, min_count=2):
+    """E10-dimension-kept: the dimension of a cell may be *deduced* from its boundary only when the caller gave none:
+    every assignment to a Dimension parameter lies in the true arm of a test `parameter == <null value>` (or is a
+    conditional expression on that test). An assignment outside such a test replaces the dimension the caller
+    supplied (a loop cell - dimension 1, empty boundary over Z_2 - would be filed as a vertex)."""
+    fams = ('Chain_matrix', 'Boundary_matrix', 'RU_matrix', 'Base_matrix', 'Id_to_index_overlay',
+            'Position_to_index_overlay', 'Matrix', 'Base_matrix_with_column_compression')
+    n = 0
+    for f in F.functions:
+        if f['inst'] not in (0, 2) or f.get('clsname') not in fams or f.get('body') is None:
+            continue
+        if only_unit is not None and f.get('unit') != only_unit:
+            continue
+        dps = [p for p in f.get('params', []) if (p.get('t') or '').split('::')[-1].strip() == 'Dimension']
+        if not dps:
+            continue
+        names = {p['n'] for p in dps}
+        par = ir.parents(f['body'])
+        for x in ir.walk(f['body']):
+            if not (x.get('k') == 'BinaryOperator' and x.get('op') == '='):
+                continue
+            l = ir.skipcasts(x['c'][0])
+            if l is None or l.get('k') != 'DeclRefExpr' or l.get('n') not in names:
+                continue
+            d = l['n']
+            n += 1
+
+            def null_test(c, d=d):
+                t = ir.show(c).replace(' ', '')
+                return (d + '==') in t.replace('(', '') and ('get_null_value' in t or '-1' in t)
+            ok = False
+            cur = x
+            while id(cur) in par:
+                up = par[id(cur)]
+                if up.get('k') == 'IfStmt' and not up.get('constexpr') and null_test(up.get('cond')) and \
+                        (cur is up.get('then') or ir.contains(up.get('then'), lambda y: y is x)) and \
+                        '||' not in ir.show(up.get('cond')):
+                    ok = True
+                cur = up
+            r = ir.skipcasts(x['c'][1])
+            if not ok and r is not None and r.get('k') == 'ConditionalOperator' and null_test(r['c'][0]) and \
+                    ir.show(r['c'][2]).replace(' ', '') == d:
+                ok = True
+            chk.ob('E10-dimension-kept', '%s::%s: `%s` is only deduced when the caller gave no dimension'
+                   % (f['clsname'], f['name'], ir.show(x)[:60]), '%s:%s' % (rel(f['file']), x.get('l')), ok,
+                   '' if ok else 'the assignment is not under `%s == <null value>`: a dimension supplied by the caller '
+                   'is replaced' % d, key='E10|%s::%s|dimension-kept|%s' % (f['clsname'], f['name'], x.get('l') if False
+                                                                           else ir.show(x['c'][1])[:40]))
+    chk.expect_count('E10-dimension-kept', 'assignments to a Dimension parameter', n, min_count)
